@@ -150,6 +150,59 @@ def prefix_oracle(chk, quick):
     return cases, None
 
 
+def embedded_archive(chk):
+    """F5: the assumed external contract 'numpy rejects every strict prefix' is false when the table
+    contents themselves spell a complete .npz archive (members are stored uncompressed and zipfile
+    tolerates leading bytes): the prefix that ends with the embedded end-of-central-directory record
+    loads - as the embedded sketch.  Built with the public API only (adds), on the real classes."""
+    cm = chk.module("countmin")
+    tmp = tempfile.mkdtemp(prefix="skv")
+    try:
+        inner = cm.CountMinLinear(1, 1)
+        inner.add(b"x", 7)
+        fi = os.path.join(tmp, "inner.npz")
+        inner.save(fi)
+        ib = open(fi, "rb").read()
+        n = (len(ib) + 3) // 4
+        words = np.frombuffer(ib + b"\0" * (4 * n - len(ib)), dtype=np.uint32)
+        outer = cm.CountMinLinear(n + 8, 1)
+        # one key per column (depth 1: the key's only counter), then add(key, word) spells the bytes
+        key_of, i = {}, 0
+        while len(key_of) < n and i < 200000:
+            k = b"k%d" % i
+            outer.query(k)
+            c = int(outer.buckets[0])
+            if c < n and c not in key_of:
+                key_of[c] = k
+            i += 1
+        if len(key_of) < n:
+            return None
+        for c in range(n):
+            if int(words[c]):
+                outer.add(key_of[c], int(words[c]))
+        fo = os.path.join(tmp, "outer.npz")
+        outer.save(fo)
+        ob = open(fo, "rb").read()
+        pos = ob.find(ib)
+        if pos < 0:
+            return None
+        cut = pos + len(ib)
+        fp = os.path.join(tmp, "prefix.npz")
+        with open(fp, "wb") as f:
+            f.write(ob[:cut])
+        for how, ld in (("CountMinLinear.load", cm.CountMinLinear.load), ("sketchnu.load", cm.load)):
+            try:
+                got = ld(fp)
+            except Exception:
+                continue
+            return {"key": "F5", "call": "%s(first %d of the %d bytes written by CountMinLinear(%d, 1).save())" % (how, cut, len(ob), n + 8), "observed": "returned a %s(width=%d, depth=%d) with n_added()=%d" % (type(got).__name__, int(got.width), int(got.depth), int(got.n_added())), "expected": "an exception", "how": "the sketch's counters (set through add() only) spell a complete saved CountMinLinear(1, 1); real classes"}
+        return None
+    finally:
+        for f_ in os.listdir(tmp):
+            os.unlink(os.path.join(tmp, f_))
+        os.rmdir(tmp)
+
+
 def run(chk):
     ex = glue.make_exec(chk, {("call", "HeavyHitters.generate_candidate_set"): glue._stub_gcs})
     cache = {}
@@ -170,7 +223,10 @@ def run(chk):
     if bad:
         chk.violation("load:bounded:prefixes", {"verdict": "bounded check failed"}, bad)
     chk.bounded_standin("strict prefixes of real saved files through class loaders and module load()", "5 classes, one small shape each, %s byte offsets" % ("~400 evenly spaced + the first/last 64" if quick else "every"), cases, int(bool(bad)), exhaustive=not quick)
-    chk.assumptions.add("ASSUMED EXTERNAL CONTRACT: numpy/zipfile reject every strict prefix of an .npz file (central directory is written last): np.load or the first member read raises")
+    emb = embedded_archive(chk)
+    if emb:
+        chk.violation("load:prefix-ending-at-an-embedded-archive", {"verdict": "the assumed external contract does not hold for this file"}, emb)
+    chk.assumptions.add("ASSUMED EXTERNAL CONTRACT: numpy/zipfile reject every strict prefix of an .npz file (central directory is written last): np.load or the first member read raises - EXCEPT when member data embed a complete archive (known finding F5: zipfile tolerates leading bytes, members are stored uncompressed)")
     chk.assumptions.update(glue.ASSUMED)
     chk.trusted.append("front end B (skv/pyexec.py)")
     chk.notes.append("Repository-side obligations: no handler encloses np.load or a member access in any loader, every member save() wrote is read through the open npz file before a sketch is returned, so an exception from numpy propagates to the caller. That numpy raises for every prefix is an assumed external contract, validated only boundedly.")
